@@ -43,6 +43,8 @@ type Req struct {
 	// Files of a config case: path relative to the case directory -> content;
 	// %DIR% is replaced by the absolute case directory. Must hold pipeline.yaml.
 	Files map[string]string `json:"files,omitempty"`
+	// Extra parameters of a config case (the CLI's --parameters k=v)
+	Extra map[string]string `json:"extra,omitempty"`
 	// IR case
 	Spec  *irgen.SchemaSpec `json:"spec,omitempty"`
 	Stage string            `json:"stage,omitempty"`
@@ -220,6 +222,33 @@ func panicSite(p *vx.PanicInfo) string {
 	return "?"
 }
 
+// dominantSite: the non-helper cog function occurring most often among the
+// innermost printed frames (ties: the outermost one).
+func dominantSite(stack string) string {
+	whole := stack
+	if i := strings.Index(stack, "frames elided"); i > 0 {
+		stack = stack[:i]
+	}
+	fr := cogFrames(stack, false)
+	if len(fr) == 0 { // deep inside a dependency (text/template): the cog caller
+		fr = cogFrames(whole, false)
+	}
+	count := map[string]int{}
+	best := "?"
+	for _, f := range fr {
+		if helperFrames.MatchString(f) {
+			continue
+		}
+		count[f]++
+	}
+	for _, f := range fr { // innermost first: ">=" keeps the outermost of equals
+		if count[f] > 0 && (best == "?" || count[f] >= count[best]) {
+			best = f
+		}
+	}
+	return best
+}
+
 // recursionSite names a runaway recursion: the cog functions that repeat in
 // the printed part of the overflowing stack (which function happens to be
 // innermost when the limit is hit is arbitrary, the cycle is not).
@@ -362,6 +391,62 @@ func handleProbe(dir string) Resp {
 		os.RemoveAll(in)
 		outs = append(outs, o)
 	}
+	// the Go dynamic types of constants, defaults and enum values in the IRs
+	// of every shape of part (a) ...
+	seen := map[valueTriple]bool{}
+	for i, shape := range allShapes() {
+		in := filepath.Join(dir, fmt.Sprintf("probe%d-s%d", curRequest.Load(), i))
+		mustWrite(inputFile(shape.Format, in), []byte(shape.Doc))
+		for rel, content := range shape.Extra {
+			mustWrite(filepath.Join(in, rel), []byte(content))
+		}
+		input := inputFor(shape.Format, in)
+		guarded("", func() (int, error) {
+			schemas, err := input.LoadSchemas(context.Background())
+			if err == nil {
+				observedValues(schemas, seen)
+			}
+			return 0, err
+		})
+		os.RemoveAll(in)
+	}
+	// ... and after fields_set_default with every YAML value type on every kind of field
+	in := filepath.Join(dir, fmt.Sprintf("probe%d-y", curRequest.Load()))
+	mustWrite(inputFile("jsonschema", in), []byte(smallSchema))
+	for _, field := range rootOptions {
+		for _, value := range []string{"3", "1.5", "s", "true", "[1, a]", "{a: 1}", "18446744073709551615", "-3"} {
+			passes := filepath.Join(in, "passes.yaml")
+			mustWrite(passes, []byte("passes: [{fields_set_default: {defaults: {p.Root."+field+": "+value+"}}}]\n"))
+			guarded("", func() (int, error) {
+				schemas, err := inputFor("jsonschema", in).LoadSchemas(context.Background())
+				if err != nil {
+					return 0, err
+				}
+				loaded, err := cogyaml.NewCompilerLoader().PassesFrom([]string{passes})
+				if err != nil {
+					return 0, err
+				}
+				schemas, err = loaded.Process(schemas)
+				if err == nil {
+					observedValues(schemas, seen)
+				}
+				return 0, err
+			})
+		}
+	}
+	os.RemoveAll(in)
+	var names []string
+	for t := range seen {
+		if _, ok := mkValueSpecial(t.name()); ok {
+			names = append(names, t.name())
+		} else {
+			names = append(names, "unbuildable:"+t.name())
+		}
+	}
+	sort.Strings(names)
+	for _, n := range names {
+		outs = append(outs, Out{Lang: n, St: "value"})
+	}
 	return Resp{Outs: outs}
 }
 
@@ -410,7 +495,7 @@ func handleConfig(dir string, req Req) Resp {
 	var pl *codegen.Pipeline
 	first := guarded("", func() (int, error) {
 		var err error
-		pl, err = codegen.PipelineFromFile(cfg, codegen.Parameters(nil))
+		pl, err = codegen.PipelineFromFile(cfg, codegen.Parameters(req.Extra))
 		return 0, err
 	})
 	if first.St != "ok" {
@@ -501,7 +586,7 @@ func handleIR(dir string, req Req) Resp {
 	switch kind {
 	case "passes":
 		var outs []Out
-		for _, tpl := range passTemplates {
+		for _, tpl := range append(append([]Template{}, passTemplates...), irPassTemplates...) {
 			r := req
 			r.Stage = "pass:" + tpl.Name
 			o := handleIR(dir, r).Outs[0]
